@@ -70,11 +70,11 @@ def cases(tier, seed):
             if len(mx) >= 2 and len(mn) >= 2:
                 yield ('fa-res', idx, seed, tier)
                 nscaled += 1
-                if tier != 'quick' or nscaled % 6 == 0:
+                if nscaled % (6 if tier == 'quick' else 3) == 0:
                     yield ('fa-tiny', idx, seed, tier)
-                if tier != 'quick' or nscaled % 6 == 3:
+                if nscaled % (6 if tier == 'quick' else 3) == (3 if tier == 'quick' else 1):
                     yield ('fa-huge', idx, seed, tier)
-                if tier != 'quick' or nscaled % 6 == 1:
+                if nscaled % (6 if tier == 'quick' else 3) == (1 if tier == 'quick' else 2):
                     yield ('fa-int', idx, seed, tier)
     # larger scope: hundreds of iterations on records of 128-512 samples (plateaus of the stopping metric, iteration
     # counters, anything that only happens after dozens of iterations)
